@@ -229,6 +229,8 @@ def build_space(spec, contracts):
 def event_contract(w, contracts, c):
     """c is an index into the world's contracts or [chain_index, member_index]."""
     if isinstance(c, list):
+        if c[1] == "chain":
+            return contracts[c[0]]          # the quote is addressed to the chain itself (a continuous price column)
         return contracts[c[0]].contracts[c[1]]
     if c == "rate":
         return Rate(world.RATE_NAME)
@@ -285,7 +287,7 @@ class EnvHandle(object):
         self.loaded_late = set()        # ids of 'late' events handed to the transmitter so far (new_env ops)
         self.latency_us = spec.get("latency_us", 0)
         for es in spec["events"]:
-            if es.get("via_frame") or es.get("late"):
+            if es.get("via_frame") or es.get("late") or es.get("via_prices"):
                 continue        # loaded from a table below / handed over later, before a new environment is built
             ev = build_event(es, self.contracts, ev_type)
             sink.idmap[id(ev)] = es["id"]
@@ -299,6 +301,7 @@ class EnvHandle(object):
         self.transmitter = Transmitter([grid[i] for i in order], folds, bool(spec.get("markov", False)), warm)
         self.transmitter.add_events(self.events)
         self._load_frames(spec, ev_type)
+        self._load_prices(spec)
         self.space, self.space_contracts = build_space(spec["space"], self.contracts)
         st = spec.get("state", {"type": "rec"})
         if st.get("crash_on"):
@@ -357,6 +360,46 @@ class EnvHandle(object):
         self.gen += 1
         self._make_env()
         self.gen_specs.append(self.spec_of_generation())
+
+    def _load_prices(self, spec):
+        """Quotes flagged via_prices are handed over as one table of mid prices with Transmitter.add_prices
+        (index = time, one column per contract, the environment-wide spread); the table keeps repeated
+        timestamps (a quote and its revision) as repeated index labels.  epimodel.Delivery ranks the
+        resulting events the way add_prices creates them: column by column, rows in order."""
+        rows = [es for es in spec["events"] if es.get("via_prices")]
+        if not rows:
+            return
+        cols = []
+        for es in rows:
+            if es["c"] not in cols:
+                cols.append(es["c"])
+        cols.sort(key=lambda c: (1, 0) if c == "rate" else (0, c))
+        per = {c: {} for c in cols}
+        for es in rows:
+            per[es["c"]].setdefault(es["t"], []).append(es)
+        times = sorted({es["t"] for es in rows}, key=core.parse_t)
+        index, data = [], {c: [] for c in cols}
+        for t in times:
+            m = max(len(per[c].get(t, [])) for c in cols)
+            for k in range(m):
+                index.append(pd.Timestamp(core.parse_t(t)))
+                for c in cols:
+                    lst = per[c].get(t, [])
+                    data[c].append(lst[k]["price"] if k < len(lst) else float("nan"))
+        labels = [Rate(world.RATE_NAME) if c == "rate" else self.contracts[c] for c in cols]
+        df = pd.DataFrame({lab: data[c] for lab, c in zip(labels, cols)}, index=pd.DatetimeIndex(index))
+        n0 = len(self.transmitter.events)
+        self.transmitter.add_prices(df, spread=spec["prices_spread"])
+        made = self.transmitter.events[n0:]
+        # creation order: column by column, rows in order
+        expected = []
+        for c in cols:
+            for t in times:
+                expected.extend(per[c].get(t, []))
+        # (made may be shorter or longer if the loader is wrong; ids are attached to as many as there are)
+        for ev, es in zip(made, expected):
+            self.sink.idmap[id(ev)] = es["id"]
+            self.events.append(ev)
 
     def _load_frames(self, spec, ev_type):
         """Rows flagged via_frame go through Transmitter.add_custom_events (index = time the row becomes
